@@ -189,7 +189,7 @@ def run(tasks, fn_name, job_timeout=120, nproc=None, extra=(), init_name=None, c
                         queue.append((w["optset"], [w["jobs"][cur]]))
                     else:
                         results.append((w["optset"], w["jobs"][cur], {why: True, "_secs": round(now - w["t"], 1),
-                                                                      "crash": (w.get("crash") or "")[-1500:]}))
+                                                                      "crash": (w.get("crash") or "")[-1500:], "exitcode": w["proc"].exitcode}))
                         done_n += 1
                 elif w.get("crash") or boot_stuck:
                     for k in rest:
